@@ -44,6 +44,27 @@ PROPS = {
             "async scheduling (rule R1 reads the forwarding bodies sequentially)",
         ],
     },
+    "C02": {
+        "units": ["cer"], "kani_complete": [], "kani_bounded_quick": [], "kani_bounded_thorough": [],
+        "design_ref": "DESIGN.md section 5 / C02",
+        "not_covered": [
+            "Client::register: client data JSON, base64url challenge, attestation object CBOR, byte-identical "
+            "authenticator data copies, DER vs COSE key, 'valid P-256 point' (serde / ciborium / p256 code)",
+            "choose_algorithm (iterator chain): 'first supported entry' is an assumed contract (element of the "
+            "list or UnsupportedAlgorithm); checked separately by a bounded Kani harness in the thorough tier",
+            "the client-side default algorithm list",
+        ],
+    },
+    "C06": {
+        "units": ["cer"], "kani_complete": [], "kani_bounded_quick": [], "kani_bounded_thorough": [],
+        "design_ref": "DESIGN.md section 5 / C06",
+        "not_covered": [
+            "non-interference over every serialisation (CBOR, JSON, Debug, hex, base64): not a functional contract; "
+            "only the routing of the public / private COSE key is decided (attested key = public encoding, "
+            "stored key = private encoding of the same secret)",
+            "U2F responses, authenticator info, errors, Debug renderings",
+        ],
+    },
     "C03": {
         "units": ["cer"], "kani_complete": [], "kani_bounded_quick": [], "kani_bounded_thorough": [],
         "design_ref": "DESIGN.md section 5 / C03",
